@@ -1,6 +1,7 @@
 import DracoProofs.Wrap
 import DracoProofs.Octahedron
 import DracoProofs.GeneratedFuncs
+import DracoProofs.GeneratedPred
 /-
   C16 — prediction-correction transforms are exactly invertible.
 
@@ -354,5 +355,41 @@ theorem source_octaEncode_is_model (t : OctaT) (orig pred : Int × Int) (hwf : t
 example : Generated.PredictionSchemeNormalOctahedronCanonicalizedEncodingTransform.ComputeCorrection
     (Generated.ofOctaT (Octa.ofCenter 127)) (3, 77) (200, 13) = Octa.encCorr (Octa.ofCenter 127) (3, 77) (200, 13) :=
   source_octaEncode_is_model _ _ _ (by unfold OctaT.WF Octa.ofCenter; decide) (by unfold Octa.inGrid Octa.ofCenter; decide) (by unfold Octa.inGrid Octa.ofCenter; decide)
+
+open Generated in
+/-- the legacy (bitstream < 2.2) `PredictionSchemeNormalOctahedronDecodingTransform::ComputeOriginalValue(Point2, Point2)`
+    — with the `VectorD<uint32_t,2>` round trips of its additions — is `Octa.legacyDecOrig`, for EVERY prediction and
+    correction -/
+theorem source_octaLegacyDecode_is_model (t : OctaT) (pred corr : Int × Int) (hwf : t.WF) :
+    PredictionSchemeNormalOctahedronDecodingTransform.ComputeOriginalValue (ofOctaT t) pred corr =
+      Octa.legacyDecOrig t pred corr := legacyDecode_eq_model t pred corr hwf
+example : Generated.PredictionSchemeNormalOctahedronDecodingTransform.ComputeOriginalValue
+    (Generated.ofOctaT (Octa.ofCenter 127)) (200, 13) (7, 250) = Octa.legacyDecOrig (Octa.ofCenter 127) (200, 13) (7, 250) :=
+  source_octaLegacyDecode_is_model _ _ _ (by unfold OctaT.WF Octa.ofCenter; decide)
+
+open Generated in
+/-- the legacy `PredictionSchemeNormalOctahedronEncodingTransform::ComputeCorrection(Point2, Point2)` is
+    `Octa.legacyEncCorr` on the grid -/
+theorem source_octaLegacyEncode_is_model (t : OctaT) (orig pred : Int × Int) (hwf : t.WF)
+    (ho : Octa.inGrid t orig) (hg : Octa.inGrid t pred) :
+    PredictionSchemeNormalOctahedronEncodingTransform.ComputeCorrection (ofOctaT t) orig pred =
+      Octa.legacyEncCorr t orig pred := legacyEncode_eq_model t orig pred hwf ho hg
+example : Generated.PredictionSchemeNormalOctahedronEncodingTransform.ComputeCorrection
+    (Generated.ofOctaT (Octa.ofCenter 127)) (3, 77) (200, 13) = Octa.legacyEncCorr (Octa.ofCenter 127) (3, 77) (200, 13) :=
+  source_octaLegacyEncode_is_model _ _ _ (by unfold OctaT.WF Octa.ofCenter; decide) (by unfold Octa.inGrid Octa.ofCenter; decide) (by unfold Octa.inGrid Octa.ofCenter; decide)
+
+open Generated in
+/-- the loop body of `ComputeParallelogramPrediction<CornerTable, int32_t>` (five statements, cut out of the translated
+    function by AST position): component `c` of the prediction is `next + prev − opp` formed in `int64_t` and converted to
+    `int32_t` (`wrap32`) — what the model's `parallelogramPrediction` pushes — for all `int32_t` data and in-range indices -/
+theorem source_parallelogramComponent_is_model (inData : Int → Int) (vn vp vo c : Int)
+    (hd : ∀ i, I32 (inData i)) (h1 : I32 (vn + c)) (h2 : I32 (vp + c)) (h3 : I32 (vo + c)) :
+    (ComputeParallelogramPrediction_component inData vn c vp vo).2.2.2.2 =
+      [(c, wrap32 (inData (vn + c) + inData (vp + c) - inData (vo + c)))] ∧
+    (ComputeParallelogramPrediction_component inData vn c vp vo).2.2.2.1 =
+      inData (vn + c) + inData (vp + c) - inData (vo + c) :=
+  ComputeParallelogramPrediction_component_eq_model inData vn vp vo c hd h1 h2 h3
+example : (Generated.ComputeParallelogramPrediction_component (fun i => 2^31 - 1 - i) 0 1 3 6).2.2.2.2 = [(1, -2147483647)] := by
+  decide
 
 end Draco
